@@ -552,7 +552,17 @@ class SymEval:
         return T.const(v)
 
     def ex_JoinedStr(self, e, frame):
-        return ("const", "<fstr>")
+        # structured only for call-free f-strings (keys such as f"Dense_{i}"); messages with calls stay opaque
+        parts = []
+        for v in e.values:
+            if isinstance(v, ast.Constant):
+                parts.append(T.const(v.value))
+            elif isinstance(v, ast.FormattedValue) and v.format_spec is None and v.conversion == -1 and \
+                    not any(isinstance(n, (ast.Call, ast.Await, ast.NamedExpr, ast.Lambda, ast.JoinedStr)) for n in ast.walk(v.value)):
+                parts.append(self.eval(v.value, frame))
+            else:
+                return ("const", "<fstr>")
+        return T.mk_call("fstr", parts)
 
     def ex_Name(self, e, frame):
         v = frame.lookup(e.id)
